@@ -46,6 +46,18 @@ def main():
                             ("ata12 byt_blok t_type", lambda s: s.atapassthrough12(4, 2, 1, 1, 1, 0, 0, 1, 0, 0xEC))):
             s, dev = facade(sets[sname], blocksize=0)
             out.append(attempt("blocksize0 %s" % mname, "MissingBlocksizeException", (lambda c=call, s=s: c(s)), dev))
+    # 2b. the same after the block size of a facade object was cleared again (histories of stores: the last one counts)
+    for hist in ([0], [512, 0], [512, 4096, 0], [0, 512, 0], [512, "reattach", 0], [512, 0, "reattach"]):
+        for mname, call in (("read10", lambda s: s.read10(5, 2)), ("read16", lambda s: s.read16(5, 2)),
+                            ("write10", lambda s: s.write10(5, 1, data)), ("writesame16", lambda s: s.writesame16(5, 1, data))):
+            s, dev = facade(sets["sbc"], blocksize=512)
+            for h in hist:
+                if h == "reattach":
+                    dev = RecordingDevice(sets["sbc"])
+                    s.device = dev
+                else:
+                    s.blocksize = h
+            out.append(attempt("blocksize history %s then %s" % (hist, mname), "MissingBlocksizeException", (lambda c=call, s=s: c(s)), dev))
     # 3. operation codes without a fixed CDB length, through the facade
     for v in (0x60, 0x7E, 0x7F, 0xC0, 0xE7, 0xFF):
         tbl = Enum({"READ_10": OpCode("READ_10", v, {}), "INQUIRY": OpCode("INQUIRY", v, {}),
